@@ -39,7 +39,7 @@ type c06Result struct{}
 func (c06Result) LastInsertId() (int64, error) { return 0, nil }
 func (c06Result) RowsAffected() (int64, error) { return 1, nil }
 
-//verif:entry tier=quick,thorough steps=1000000 cover=shared
+//verif:entry dpor tier=quick,thorough steps=1000000 cover=shared
 //verif:stub (github.com/zeromicro/go-zero/core/mathx.Unstable).AroundDuration c06SNoJitter
 //verif:doc Two CachedConn values built by NewNodeConn over the same store, two concurrent QueryRowCtx on one uncached key (every interleaving): at most one database query is in flight at any time and both readers get the row (the single-flight group is shared by all connections of the process).
 func Verif_C06_SqlcFlight() {
